@@ -29,4 +29,19 @@ PROPS = {
         "assumptions": COMMON_ASSUME + ["no line of either text ends in a carriage return (documented limitation)"],
         "outside": [],
     },
+    "C13": {
+        "runs": [
+            {"harness": "H_C13_opcodes", "pkg": "difflib", "quick": {"p": 4, "q": 4}, "thorough": {"p": 5, "q": 5}},
+            {"harness": "H_C13_opcodes_long", "pkg": "difflib", "params": {"lines": 12}, "quick": {"sym": 1}, "thorough": {"sym": 2}},
+            {"harness": "H_C13_opcodes_long", "pkg": "difflib", "params": {"lines": 210}, "quick": {"sym": 1}, "thorough": {"sym": 1}},
+            {"harness": "H_C13_empty", "params": {"ascii": 1}, "quick": {"n": 3}, "thorough": {"n": 4}},
+            {"harness": "H_C13_empty", "params": {"ascii": 0}, "quick": {"n": 2}, "thorough": {"n": 2}},
+            {"harness": "H_C13_render", "quick": {"lines": 3}, "thorough": {"lines": 4}},
+        ],
+        "bounds": {"quick": "op-codes: all pairs of line sequences up to 4+4 lines (every equality pattern), 12- and 210-line sequences with one free line each; "
+                            "emptiness: ASCII texts <= 3 bytes, arbitrary bytes <= 2; rendering: <= 3 lines of one letter each, with/without final newline",
+                   "thorough": "op-codes up to 5+5 lines, 12 lines with 2 free lines each; emptiness ASCII <= 4; rendering <= 4 lines"},
+        "assumptions": COMMON_ASSUME + ["diffmatchpatch is summarised by: rune sequences equal <=> single Equal chunk (DESIGN 5.5)"],
+        "outside": ["appearance of inline highlights (colour mode)", "line contents longer than one byte in the op-code harness (only equality of lines is observed by the code)"],
+    },
 }
